@@ -1,8 +1,8 @@
-\* C17 design spec, quick tier: 2 keys x 2 threads, every operation, capacities {0,1}
+\* C17 design spec, thorough tier: 2 keys x 3 threads, every operation, capacities {0,1}
 SPECIFICATION Spec
 CONSTANTS
   Keys = {k1, k2}
-  Threads = {t1, t2}
+  Threads = {t1, t2, t3}
   NoKey = nokey
   Caps = {0, 1}
   Cap0 = 1
